@@ -234,6 +234,16 @@ def gen_builtin(rng, nmax):
             "g": rng.choice([1.1, 1.5, 2.0]), "scale": rng.choice([None, 0.0, 0.2, 0.5, 1.0, 2.0]), "level": rng.choice([0.05, 0.3])}
 
 
+def long_builtin(rng):
+    """a series long enough for single intervals to hold more than 4096 (8192) candidate splits"""
+    n = rng.choice([4100, 4200, 8300])
+    lv = [rng.randint(-3, 3) for _ in range(6)]
+    cpts = sorted(rng.sample(range(1, n), 5))
+    X = [[lv[sum(1 for c in cpts if c <= i)] + rng.choice([0, 0, 1, -1])] for i in range(n)]
+    return {"n": n, "m": rng.choice([1, 2]), "p": 1, "X": X, "score": rng.choice(["cusum", "l2"]), "mx": 20000, "g": 2.0,
+            "scale": rng.choice([1.0, 2.0]), "level": 0.05, "fitmode": "same", "prior": None, "borderline": False, "container": "ndarray"}
+
+
 def _mk_score(kind):
     from skchange.change_scores import CUSUM
     from skchange.costs import GaussianVarCost, L2Cost
@@ -373,6 +383,8 @@ def run(chk: core.Check):
                    skip=lambda c, r: r["outcome"][5:] if r["outcome"].startswith("skip:") else None,
                    nontrivial=lambda c, r: r.get("outcome") == "ok" and len(r["lo"]) > len(r["hi"]))
     rng = core.rng_for(chk.seed, "C07/builtin")
+    chk.run_stream("long", [long_builtin(rng) for _ in range({"quick": 2, "thorough": 6}[tier])], impl_builtin, oracle=oracle_builtin,
+                   site="SeededBinarySegmentation/long", per_case_timeout=600, describe=lambda c: {k: v for k, v in c.items() if k != "X"})
     chk.run_stream("builtin", core.Gen(gen_builtin, rng, min(nmax + 6, 30), N // 4), impl_builtin, oracle=oracle_builtin,
                    site="SeededBinarySegmentation/builtin",
                    nontrivial=lambda c, r: r.get("outcome") == "ok" and len(r["cps"]) > 0,
